@@ -25,8 +25,9 @@ Oracle (weakest reading of the statement):
   * m2 is the minting method and the batch shape fits  =>  200 without error (sanity / non-vacuity, key
     ``own-endpoint-refused``).
 Finding keys name the relationship of the two methods' state classes, the only thing that decides whether the
-substitution gets through: ``foreign-state-processed:<same-state-class|same-shape-class|union|other>`` and
-``foreign-not-rejected:<...>``.
+substitution gets through, and the pair itself: ``foreign-state-processed:<same-state-class|same-shape-class|union|
+other>:<m1>-><m2>`` and ``foreign-not-rejected:<...>:<m1>-><m2>`` (pair-specific, so that the recorded known finding
+lists exactly the pairs that get through on the unmodified tree and any further pair is reported).
 """
 
 from __future__ import annotations
@@ -156,13 +157,13 @@ def judge(ctx: Ctx, case: dict[str, Any], r: T.Resp, events: list[Any]) -> tuple
         if hooks:
             seen = sorted({str(e[1:3]) for e in hooks if e[0] in ("process", "rehydrate", "on_cancel")})
             ctx.fail(
-                f"foreign-state-processed:{rel}",
+                f"foreign-state-processed:{rel}:{m1}->{m2}",
                 f"{desc}: answered {r.status}{' +error' if r.error_header else ''} and ran "
                 f"{[e[0] for e in hooks]} on state minted by {T.real_method(m1)} (state seen: {seen}); output {r.batches}",
                 case,
             )
         elif not rejected:
-            ctx.fail(f"foreign-not-rejected:{rel}", f"{desc}: answered {r.status} error={r.error}", case)
+            ctx.fail(f"foreign-not-rejected:{rel}:{m1}->{m2}", f"{desc}: answered {r.status} error={r.error}", case)
         elif any(e[0] == "deser-state" for e in events):
             ctx.extra["foreign_rejected_only_after_deserialize"] += 1
     reached = accepted or (r.error is not None and ("token" in r.error[1].lower() or "state" in r.error[1].lower()))
